@@ -3,7 +3,7 @@ sys.path.insert(0, os.path.join(os.path.dirname(__file__), '..', '..', 'tools'))
 from vlib import Unit, Query, Runner  # noqa: E402
 
 OPS = ['EMPLACE_BACK', 'POP_BACK', 'ERASE', 'AT', 'AT_CONST', 'INSERT_RV', 'INSERT_LV', 'PUSH_BACK', 'EMPLACE_POS', 'PUSH_RANGE2', 'GET0', 'GET1',
-       'COPY_CTOR', 'MOVE_CTOR', 'COPY_ASSIGN', 'MOVE_ASSIGN', 'LIST_ASSIGN', 'CTOR_ITERABLE', 'INDEX_WRITE', 'USE_MOVED_FROM', 'REVERSE_ADAPTOR']
+       'COPY_CTOR', 'MOVE_CTOR', 'COPY_ASSIGN', 'MOVE_ASSIGN', 'LIST_ASSIGN', 'CTOR_ITERABLE', 'INDEX_WRITE', 'USE_MOVED_FROM', 'REVERSE_ADAPTOR', 'EMPLACE_POS_ALIAS']
 NEVER_RAISES = {'COPY_CTOR', 'MOVE_CTOR', 'COPY_ASSIGN', 'MOVE_ASSIGN', 'LIST_ASSIGN', 'INDEX_WRITE', 'REVERSE_ADAPTOR'}
 TRACKED_OPS = {0: 'emplace_back', 1: 'push_back(const&)', 2: 'erase', 3: 'emplace(pos)', 4: 'copy-construct', 5: 'move-construct', 6: 'copy-assign',
                7: 'move-assign', 8: 'pop_back', 9: 'insert(&&)'}
@@ -26,7 +26,7 @@ def fv_unit(prop, tier):
         if op not in NEVER_RAISES and op != 'USE_MOVED_FROM':
             w.append('operation raises')
         qs.append(Query('step_' + op.lower(), ['-DMODE_STEP', '-DOP=%d' % i, '-DCAPMAX=%d' % capmax] + c07, w, unwind=2, hardcap=capmax + 10, est_gb=2,
-                        profile=[v for v in step_profile(capmax) if op != 'INDEX_WRITE' or v[-1] < v[1] - v[2]],
+                        profile=[v for v in step_profile(capmax) if (op != 'INDEX_WRITE' or v[-1] < v[1] - v[2]) and (op != 'EMPLACE_POS_ALIAS' or v[1] - v[2] >= 1)],
                         sample={'mode': 'one operation from an arbitrary reachable state', 'operation': op, 'capacity': '0..%d' % capmax,
                                 'state': 'n0 <= capacity appended symbolic ints, 0..1 pops (stale slot), symbolic arguments, index 0..capacity+2'}))
     import itertools, random
@@ -67,6 +67,8 @@ def fv_unit(prop, tier):
         # vin: cap n0 pre init[capmax] arg arg2 idx
         for cap, n0, pre, idx in ((3, 2, 0, 0), (3, 3, 0, 3), (2, 2, 1, 1), (0, 0, 0, 0), (1, 1, 0, 1), (3, 2, 0, 2)):
             if op == 'INDEX_WRITE' and not idx < n0 - pre:
+                continue
+            if op == 'EMPLACE_POS_ALIAS' and n0 - pre < 1:
                 continue
             corpus.append((d, [cap, n0, pre] + [5, 7, 9, 11][:capmax] + [42, 43, idx]))
     for sq, v in (((0, 0, 2), [2, 0, 5, 0, 7, 0, 0]), ((0, 3, 1), [2, 0, 5, 0, 7, 0, 0]), ((5, 6), [1, 0, 5, 0, 9]), ((1, 0), [0, 0, 0, 0, 1])):
